@@ -210,7 +210,13 @@ func c02main(c *Ctx) {
 	nestLog.Discard = true
 	nestLogger := slog.New("nested").Root()
 	nestLogger.SetWriter(mon.New(nestLog, "N", mon.ShapePlain)).SetErrorWriter(mon.New(nestLog, "N", mon.ShapePlain)).SetLevel(slog.AlwaysLevel)
+	cores := make([]mon.W, nW)
+	for i := range pool {
+		cores[i] = pool[i].(mon.W)
+	}
 	pool[4] = &reentrantWriter{inner: pool[4].(mon.W), nest: nestLogger}
+	// W1 (a destination that can be closed) is handed over through the exported NewLogWriter wrapper
+	pool[1] = slog.NewLogWriter(cores[1])
 	verbs := c02verbs()
 	// two registered custom severities: one without and one with the error device
 	_ = slog.RegisterLevel(c02lvlPlain, "c02plain", slog.RegWithTreatedAsLevel(slog.InfoLevel))
@@ -310,13 +316,13 @@ func c02main(c *Ctx) {
 			}
 			if failing != 4 {
 				cnt := r.Intn(3)
-				pool[failing].(mon.W).Core().Fail = func(_ int, p []byte) (bool, int) { return true, []int{len(p), len(p) / 2, 0}[cnt] }
+				cores[failing].Core().Fail = func(_ int, p []byte) (bool, int) { return true, []int{len(p), len(p) / 2, 0}[cnt] }
 				// the error may be of the kind that calls itself temporary (EAGAIN, EINTR, also wrapped): still one Write each
 				ek := r.Intn(5)
-				pool[failing].(mon.W).Core().Err = func(int) error {
+				cores[failing].Core().Err = func(int) error {
 					return []error{nil, nil, syscall.EAGAIN, syscall.EINTR, &os.PathError{Op: "write", Path: "/dev/pts/3", Err: syscall.EAGAIN}}[ek]
 				}
-				defer func() { pool[failing].(mon.W).Core().Fail = nil; pool[failing].(mon.W).Core().Err = nil }()
+				defer func() { cores[failing].Core().Fail = nil; cores[failing].Core().Err = nil }()
 				c.R.Add("calls_with_a_failing_pool_member", 1)
 			}
 		}
@@ -403,6 +409,23 @@ func c02main(c *Ctx) {
 			bg := gen.Pick(r, []color.Color{color.NoColor, color.BgBlue, color.BgUnderline})
 			slog.SetLevelColors(sev, fg, bg)
 			c.R.Add("calls_after_SetLevelColors_for_the_severity", 1)
+		}
+		// a skip count that runs off the stack (a wrapper library mis-set it, the call is a goroutine's entry function):
+		// the record has no caller to name, it is delivered all the same
+		if r.P(8) {
+			lg.SetSkip(gen.Pick(r, []int{30, 64, 1000}))
+			slog.AddFlags(slog.Lcaller)
+			if r.Bool() {
+				slog.RemoveFlags(slog.Lcallerpackagename)
+			}
+			c.R.Add("calls_with_a_skip_count_beyond_the_stack", 1)
+		}
+		// the application has called Close on what GetWriter / GetWriterBy hand out (the destinations themselves stay
+		// what they are: a closed destination is still handed every record, what it does with it is its business)
+		if r.P(4) && !defaultDev {
+			_ = lg.GetWriter().Close()
+			_ = lg.GetWriterBy(sev).Close()
+			c.R.Add("calls_after_Close_on_the_loggers_writers", 1)
 		}
 		desc := map[string]any{"format": f.String(), "logger_level": L.String(), "entry": vb.name, "mode": mode, "severity": int(sev), "msg": q(clip(msg, 200)), "nargs": len(args), "args": adesc,
 			"normal": d.normal, "error": d.errs, "default_devices": defaultDev, "failing_writer": failing, "per_level": fmt.Sprint(d.perLevel), "flags": int64(slog.GetFlags()), "child": name == "kid", "nil_ctx": ctx == nil, "context_keys": ctxKeys}
